@@ -790,3 +790,6 @@ def run(report, repo):
   report.guard(extra5.finalize_examines_every_measurement, report, repo, 'C06-R9')
   from sa.rules import extra5 as _e5  # pylint: disable=g-import-not-at-top
   report.guard(_e5.cached_value_refreshed_when_set, report, repo, 'C06-R10')
+  from sa.rules import extra5 as _e6c  # pylint: disable=g-import-not-at-top
+  report.guard(_e6c.with_validator_always_appends, report, repo, 'C06-R11')
+  report.guard(_e6c.callback_clearing_by_dimensions, report, repo, 'C06-R12')
